@@ -84,7 +84,7 @@ func (c08) Plan(tier string, seed int64) []core.Scenario {
 		for j := range lens {
 			lens[j] = []int{0, 1, 3, 10, 40, 120}[rng.Intn(6)]
 		}
-		out = append(out, core.Sc("multiclose").WithN("end", i%4).WithL(lens))
+		out = append(out, core.Sc("multiclose").WithN("end", i%4).WithN("conc", (i/4)%2).WithL(lens))
 	}
 	ns := 4
 	if tier == "thorough" {
@@ -448,18 +448,60 @@ func (c08) multiClose(sc core.Scenario, r *core.R) {
 	toks := make([]string, n)
 	gots := make([]*got, n)
 	// survivors: two infinite streams that outlive the finite ones
-	for i := 0; i < n; i++ {
-		toks[i] = Tok("a")
-		mode, ln := svc.SGoroutine, sc.L[i]
-		if i >= n-2 && sc.I("end") != 0 {
-			mode, ln = svc.SInfinite, 0
+	if sc.I("conc") == 1 {
+		// the subscribing calls are handled at the same time: their handlers are held until all of them have
+		// been entered and then return their channels together
+		var wg sync.WaitGroup
+		errs := make([]error, n)
+		for i := 0; i < n; i++ {
+			toks[i] = Tok("a")
+			mode, ln := svc.SHoldBefore, sc.L[i]
+			if i >= n-2 && sc.I("end") != 0 {
+				mode, ln = svc.SInfinite, 0
+			} else {
+				env.Svc.Hold(toks[i])
+			}
+			wg.Add(1)
+			go func(i, ln, mode int) {
+				defer wg.Done()
+				ch, err := cl.Sub(sctx, toks[i], ln, mode)
+				if err != nil {
+					errs[i] = err
+					return
+				}
+				gots[i] = drainItems(ch, 0, -1, nil)
+			}(i, ln, mode)
 		}
-		ch, err := cl.Sub(sctx, toks[i], ln, mode)
-		if err != nil {
-			r.Violate("subscribe-failed", "subscription %d of %d failed on a healthy link: %v", i, n, err)
+		for i := 0; i < n; i++ {
+			env.Svc.WaitEntered(toks[i], core.Grace)
+		}
+		env.Svc.ReleaseAll()
+		done := make(chan struct{})
+		go func() { wg.Wait(); close(done) }()
+		if !core.WaitCh(done, 2*core.Grace) {
+			r.Violate("subscribe-failed", "%d subscribing calls handled at the same time did not all return on a healthy link", n)
 			return
 		}
-		gots[i] = drainItems(ch, 0, -1, nil)
+		for i, e := range errs {
+			if e != nil || gots[i] == nil {
+				r.Violate("subscribe-failed", "subscription %d of %d (handled concurrently) failed on a healthy link: %v", i, n, e)
+				return
+			}
+		}
+	} else {
+		for i := 0; i < n; i++ {
+			toks[i] = Tok("a")
+			mode, ln := svc.SGoroutine, sc.L[i]
+			if i >= n-2 && sc.I("end") != 0 {
+				mode, ln = svc.SInfinite, 0
+			}
+			ch, err := cl.Sub(sctx, toks[i], ln, mode)
+			if err != nil {
+				r.Violate("subscribe-failed", "subscription %d of %d failed on a healthy link: %v", i, n, err)
+				return
+			}
+			gots[i] = drainItems(ch, 0, -1, nil)
+		}
 	}
 	finite := n
 	if sc.I("end") != 0 {
@@ -486,7 +528,7 @@ func (c08) multiClose(sc core.Scenario, r *core.R) {
 		}
 		checkSeq(r, "multi(survivor)", toks[i], gots[i].snapshot(), int(env.Svc.Get(toks[i]).Sent)+1, false)
 	}
-	r.Key(fmt.Sprintf("multiclose n=%d end=%d lens=%v", n, sc.I("end"), sc.L), true)
+	r.Key(fmt.Sprintf("multiclose n=%d end=%d conc=%d lens=%v", n, sc.I("end"), sc.I("conc"), sc.L), true)
 	r.Obs("terminations", int64(n))
 	r.Sig(core.Log.Signature())
 	r.Sample(map[string]interface{}{"streams": n, "lengths": sc.L, "then": []string{"nothing", "cancel survivors", "connection reset", "client close"}[sc.I("end")]})
